@@ -11,7 +11,8 @@ import random
 
 import torch
 
-CLOUD_KINDS = ["generic", "aniso", "planar", "collinear", "nearplanar", "nearcollinear", "duplicated", "two", "lattice"]
+CLOUD_KINDS = ["generic", "aniso", "planar", "collinear", "nearplanar", "nearcollinear", "duplicated", "two", "lattice", "cube", "octa"]
+SYMMETRIC = ("cube", "octa")     # exactly representable, highly symmetric: equal singular values, equidistant points (exact ties)
 
 
 # ----------------------------------------------------------------------------- small linear algebra (python floats)
@@ -75,7 +76,7 @@ def rand_quat(r: random.Random, kind: str):
     return q
 
 
-QUAT_KINDS = ["uniform", "uniform", "uniform", "mid", "small", "pi", "axis180", "nearpi", "identity", "r22_atol", "diag_tie"]
+QUAT_KINDS = ["uniform", "uniform", "uniform", "mid", "small", "pi", "axis180", "nearpi", "identity", "r22_atol", "diag_tie", "quarter"]
 
 
 def gen_cloud(r: random.Random, N: int, kind: str, extent: float, rotate: bool, offset: float):
@@ -85,6 +86,13 @@ def gen_cloud(r: random.Random, N: int, kind: str, extent: float, rotate: bool, 
     sc = {"generic": (1, 1, 1), "aniso": (1, r.choice([0.5, 0.1]), r.choice([0.3, 0.03])), "planar": (1, r.choice([1, 0.3]), 0),
           "collinear": (1, 0, 0), "nearplanar": (1, 1, thin), "nearcollinear": (1, thin, thin * r.choice([1, 0.1])),
           "duplicated": (1, 1, 1), "two": (1, 1, 1), "lattice": (1, 1, 1)}[kind]
+    if kind in SYMMETRIC:
+        verts = [[float(a), float(b), float(c)] for a in (-1, 1) for b in (-1, 1) for c in (-1, 1)] if kind == "cube" else \
+            [[1.0, 0, 0], [-1.0, 0, 0], [0, 1.0, 0], [0, -1.0, 0], [0, 0, 1.0], [0, 0, -1.0]]
+        pts = [[v * extent for v in verts[i % len(verts)]] for i in range(N)]
+        if offset:      # an exactly representable shift keeps every coincidence exact
+            pts = [[p[0] + float(int(offset)), p[1], p[2] - float(int(offset))] for p in pts]
+        return pts
     if kind == "lattice":
         pts = [[float(r.randint(-4, 4)) * extent for _ in range(3)] for _ in range(N)]
     elif kind == "duplicated":
@@ -105,17 +113,42 @@ def gen_cloud(r: random.Random, N: int, kind: str, extent: float, rotate: bool, 
     return pts
 
 
+QUARTER = [[[0.0, -1.0, 0.0], [1.0, 0.0, 0.0], [0.0, 0.0, 1.0]], [[1.0, 0.0, 0.0], [0.0, 0.0, -1.0], [0.0, 1.0, 0.0]],
+           [[0.0, 0.0, 1.0], [0.0, 1.0, 0.0], [-1.0, 0.0, 0.0]], [[0.0, 1.0, 0.0], [0.0, 0.0, 1.0], [1.0, 0.0, 0.0]],
+           [[-1.0, 0.0, 0.0], [0.0, -1.0, 0.0], [0.0, 0.0, 1.0]], [[0.0, 1.0, 0.0], [1.0, 0.0, 0.0], [0.0, 0.0, -1.0]]]
+
+
+def mat_to_q(R):
+    """quaternion (x, y, z, w) of a rotation matrix (largest-component branch), python floats"""
+    t = R[0][0] + R[1][1] + R[2][2]
+    if t > 0:
+        w = math.sqrt(1 + t) / 2
+        return [(R[2][1] - R[1][2]) / (4 * w), (R[0][2] - R[2][0]) / (4 * w), (R[1][0] - R[0][1]) / (4 * w), w]
+    i = max(range(3), key=lambda k_: R[k_][k_])
+    j, k = (i + 1) % 3, (i + 2) % 3
+    x = math.sqrt(max(0.0, 1 + R[i][i] - R[j][j] - R[k][k])) / 2
+    q = [0.0, 0.0, 0.0, (R[k][j] - R[j][k]) / (4 * x)]
+    q[i], q[j], q[k] = x, (R[j][i] + R[i][j]) / (4 * x), (R[k][i] + R[i][k]) / (4 * x)
+    return q
+
+
 def make_item(spec: dict):
     """(source, target, truth) of one alignment problem from its spec (all python floats).
     spec: seed N cloud extent rotate offset qkind scale tmag noise nkind"""
     r = random.Random(spec["seed"])
     N = spec["N"]
     src = gen_cloud(r, N, spec["cloud"], spec["extent"], spec["rotate"], spec["offset"] * spec["extent"])
-    q = rand_quat(r, spec["qkind"])
-    R = q_to_mat(q)
+    if spec["qkind"] == "quarter":      # exact signed permutation: images of lattice / cube points are exact, all ties exact
+        R = QUARTER[r.randrange(len(QUARTER))]
+        q = mat_to_q(R)
+    else:
+        q = rand_quat(r, spec["qkind"])
+        R = q_to_mat(q)
     s = spec["scale"]
     td = q_normalize([r.gauss(0, 1) for _ in range(3)] + [0.0])[:3]
     t = [spec["tmag"] * spec["extent"] * v for v in td]
+    if spec["qkind"] == "quarter":
+        t = [float(round(v)) for v in t]
     base = src
     if spec["nkind"] == "mirror":   # improper: reflect through a random plane first
         n = q_normalize([r.gauss(0, 1) for _ in range(3)] + [0.0])[:3]
